@@ -10,13 +10,19 @@ import NdnModel.Lvs.Proto
       objs   ::= obj;obj;…            obj  ::= <name idx>:<key locator name idx|~>:<h|r|e|d|o>:<signer key id|~>:<content|~>
                                       content ::= <e|r|d|b><key id>      (EC, RSA, Ed25519, not-a-key)
       world  ::= . | <name idx>=D<obj index>,<name idx>=N,<name idx>=T,…     (what the network returns for an Interest of that name)
-      insts  ::= . | inst;inst;…      inst ::= <anchor obj index>/<model idx>/<env>      env ::= . | $eq,$eq_type,…
-      steps  ::= . | <inst>:<obj index>,…
+      insts  ::= . | inst;inst;…      inst ::= <anchor obj index>/<model idx>/<env>[/<store>]      env ::= . | $eq,$eq_type,…
+                                      store ::= E (an EmptyKeyStorage) | M<n> (the MemoryKeyStorage object number n; the same n for every
+                                      instance that was handed that object); absent: M<index of the instance> (an object of its own)
+      steps  ::= . | step,…           step ::= <inst>:<obj index>                     (the instance validates the object)
+                                             | W<name idx>=D<obj index> | W<name idx>=N | W<name idx>=T | W<name idx>=A
+                                               (from now on the network answers an Interest of that name with that Data / a Nack /
+                                                not at all [T: the world says timeout, A: nothing known under the name])
+    The steps are run by `Ndn.Cascade.stepD` / `validateD` (the model with `world` events and explicit storage objects).
     The ground truth "who signed" instantiates `crypto`: the library verifies o under k iff o was
     signed with the private key of k.  NOTHING the real checker answered is an input: every link's `allowed` is
     `Ndn.Lvs.check` on the model, the construction is `constructLvs` (`validate_user_fns`, `root_of_trust`, `match`).
     answer: `ok <inst results> <step results> <inst infos>`; inst result ::= ok | err:<class>;
-      step result ::= <A|R|F|E:<class>|X>@<Interests joined by .>   (X: instance was not built)
+      step result ::= <A|R|F|E:<class>|X>@<Interests joined by .>   (X: instance was not built), one per validation step
       Interest ::= <name idx>^<CanBePrefix 0|1>^<MustBeFresh 0|1>^<lifetime ms>
       inst info ::= <validate_user_fns 0|1>~<root_of_trust rule names ,-separated|.>~<anchor's matched rule names|.|E:<class>>~<links>
       links ::= per object, `+`-separated:  - (no key locator name) | 1 | 0 | E:<class>   = Checker.check(name, key locator)
@@ -96,22 +102,46 @@ structure InstSpec where
   key    : Key
   model  : Lvs.Model
   env    : Lvs.FnEnv
+  store  : StoreRef
 
-def parseInst (objs : List (Obj LName)) (models : List Lvs.Model) (s : String) : Option InstSpec :=
-  match s.splitOn "/" with
-  | [a, mi, es] => do
+def parseStore (s : String) : Option StoreRef :=
+  if s == "E" then some .empty
+  else if s.startsWith "M" then (s.drop 1).toString.toNat?.map .mem
+  else none
+
+def parseInst (objs : List (Obj LName)) (models : List Lvs.Model) (idx : Nat) (s : String) : Option InstSpec :=
+  let go (a mi es : String) (store : StoreRef) : Option InstSpec := do
     let a ← a.toNat?
     let anchor ← objs[a]?
     let key ← anchor.content
     let m ← models[← mi.toNat?]?
     let env ← Lvs.Proto.parseEnv es
-    pure ⟨anchor, key, m, env⟩
+    pure ⟨anchor, key, m, env, store⟩
+  match s.splitOn "/" with
+  | [a, mi, es] => go a mi es (.mem idx)
+  | [a, mi, es, st] => do go a mi es (← parseStore st)
   | _ => none
 
-def parseStep (s : String) : Option (Nat × Nat) :=
-  match s.splitOn ":" with
-  | [a, b] => do pure (← a.toNat?, ← b.toNat?)
-  | _ => none
+/-- a step of the history: a validation, or a change of what the network answers under one name -/
+inductive StepSpec where
+  | val (i oi : Nat)
+  | chg (nm : LName) (out : Option (Outcome LName))
+
+def parseStep (objs : List (Obj LName)) (names : List LName) (s : String) : Option StepSpec :=
+  if s.startsWith "W" then
+    match (s.drop 1).toString.splitOn "=" with
+    | [n, o] => do
+      let n ← n.toNat?
+      let nm ← names[n]?
+      if o == "A" then pure (.chg nm none)
+      else do
+        let e ← parseWorldEntry objs names ((s.drop 1).toString)
+        pure (.chg nm (some e.2))
+    | _ => none
+  else
+    match s.splitOn ":" with
+    | [a, b] => do pure (.val (← a.toNat?) (← b.toNat?))
+    | _ => none
 
 def groundCrypto {N : Type} (k : Key) (o : Obj N) : Bool := o.sig == some k.id
 
@@ -127,22 +157,30 @@ def showInterest (names : List LName) (i : Interest LName) : String :=
 
 def showLog (names : List LName) (l : List (Interest LName)) : String := ".".intercalate (l.map (showInterest names))
 
-/-- instances that could be built (`constructLvs`), as environments of the composed model -/
-def buildInst (world : Interest LName → Option (Outcome LName)) (i : InstSpec) : Except PyErr (Env LName) :=
+/-- instances that could be built (`constructLvs`), as configurations of the model with events -/
+def buildInst (i : InstSpec) : Except PyErr (Cfg LName) :=
   match constructLvs groundCrypto i.model i.env i.anchor i.key with
-  | .ok (n, k) => .ok (Inst.env ⟨i.model, i.env, groundCrypto, world, n, k⟩)
+  | .ok (n, k) => .ok (Inst.cfg ⟨i.model, i.env, groundCrypto, fun _ => none, n, k⟩ i.store)
   | .error e => .error e
 
-def runSteps (names : List LName) (insts : List (Except PyErr (Env LName))) (objs : List (Obj LName)) (fuel : Nat) :
-    (Nat → Cache LName) → List (Nat × Nat) → Option (List String)
+/-- the configurations as a function of the instance number (an instance that was not built never validates) -/
+def cfgFn (insts : List (Except PyErr (Cfg LName))) (i : Nat) : Cfg LName :=
+  match insts[i]? with
+  | some (.ok c) => c
+  | _ => ⟨fun _ _ => .ok false, groundCrypto, [], ⟨.bad, 0⟩, .empty⟩
+
+def runSteps (names : List LName) (insts : List (Except PyErr (Cfg LName))) (objs : List (Obj LName)) (fuel : Nat) :
+    DState LName → List StepSpec → Option (List String)
   | _, [] => some []
-  | cs, (i, oi) :: r =>
+  | st, .chg nm out :: r =>
+    runSteps names insts objs fuel (stepD (cfgFn insts) st (.world fun i => if i.name = nm then out else st.world i)) r
+  | st, .val i oi :: r =>
     match insts[i]?, objs[oi]? with
-    | some (.ok E), some o =>
-      let x := validate E fuel (cs i) o
-      (runSteps names insts objs fuel (setCache cs i x.cache) r).map
+    | some (.ok _), some o =>
+      let x := validateD (cfgFn insts) st i fuel o
+      (runSteps names insts objs fuel (stepD (cfgFn insts) st (.validate i fuel o)) r).map
         ((showVerdict x.verdict ++ "@" ++ showLog names x.log) :: ·)
-    | some (.error _), some _ => (runSteps names insts objs fuel cs r).map ("X@" :: ·)
+    | some (.error _), some _ => (runSteps names insts objs fuel st r).map ("X@" :: ·)
     | _, _ => none
 
 def joinOr (l : List String) : String := if l.isEmpty then "." else ",".intercalate l
@@ -218,15 +256,16 @@ def handlePki (args : List String) : String :=
     | some fuel, some names, some models, some iobjs =>
       match iobjs.mapM (realObj names) with
       | some objs =>
-        match (splitList world ",").mapM (parseWorldEntry objs names), (splitList insts ";").mapM (parseInst objs models),
-              (splitList steps ",").mapM parseStep with
+        match (splitList world ",").mapM (parseWorldEntry objs names),
+              (splitList insts ";").zipIdx.mapM (fun x => parseInst objs models x.2 x.1),
+              (splitList steps ",").mapM (parseStep objs names) with
         | some w, some is, some ss =>
           let wf : Interest LName → Option (Outcome LName) := fun i => lookupWorld w i.name
-          let built := is.map (buildInst wf)
+          let built := is.map buildInst
           let ir := built.map fun b => match b with
             | .ok _ => "ok"
             | .error e => "err:" ++ e.name
-          match runSteps names built objs fuel (fun _ => []) ss with
+          match runSteps names built objs fuel ⟨wf, fun _ => []⟩ ss with
           | some sr => "ok " ++ (if ir.isEmpty then "." else ",".intercalate ir) ++ " " ++
                        (if sr.isEmpty then "." else ",".intercalate sr) ++ " " ++
                        (if is.isEmpty then "." else ";".intercalate (is.map (instInfo objs)))
